@@ -157,6 +157,58 @@ Theorem C12_failed_result_keeps_counts_partial : forall s j p e s1 vs mx bn' b',
 Proof. exact failed_result_keeps_counts. Qed.
 Print Assumptions C12_failed_result_keeps_counts_partial.
 
+(* ---- worker.Run (second machine) and its composition with the dispatcher.
+
+   Worker contract: for every sequence of worker events (jobs offered, peer
+   messages finishing / progressing / unrelated, job timer, peer disconnect,
+   caller cancel, batch-internal cancel, the dispatcher taking results, quit)
+   the jobs the worker read from nextJob are exactly the jobs it reported a
+   result for, in order, plus the one it still owes (working on it, result
+   ready, or held when it was told to quit). *)
+Theorem C12_worker_one_result_per_accepted_job : forall es,
+  waccepted (wtrace es) = map fst (wresults (wtrace es)) ++ wowed (wfinal es).
+Proof. exact worker_exactly_one. Qed.
+Print Assumptions C12_worker_one_result_per_accepted_job.
+
+(* Every way a job can end — finished response, job timer, disconnect, caller
+   cancel and the batch-internal cancel of a timed-out batch — makes the
+   worker hold a result of that class, which the dispatcher receives; unless
+   the peer disconnected the worker is then idle again. *)
+Theorem C12_worker_every_cause_reported : forall j e c,
+  cause_of e = Some c ->
+  fst (wstep (WBusy j) e) = WSend j c /\
+  wres (snd (wstep (WSend j c) WTake)) = Some (j, c) /\
+  (c <> JDisconnected -> fst (wstep (WSend j c) WTake) = WIdle).
+Proof. exact worker_cause_reported. Qed.
+Print Assumptions C12_worker_every_cause_reported.
+
+(* The worker model satisfies the contract monitor evaluated on traces of the
+   real worker.Run. *)
+Theorem C12_worker_contract_monitor : forall es, wholds (wtrace es) = true.
+Proof. exact wholds_model. Qed.
+Print Assumptions C12_worker_contract_monitor.
+
+(* Composition: a finished / timed-out / cancelled batch frees its workers
+   and does not block later batches.  (1) whatever result a worker reports —
+   also the ErrJobCanceled for a job of a batch that has already got its
+   verdict, which is discarded — clears that worker's slot in the dispatcher;
+   by the worker contract above that result does arrive.  (2) a batch
+   submitted while some worker is free is handed out to a free worker in the
+   same dispatcher step (and by C12_no_job_waits_for_a_free_worker no queued
+   job, stale or not, waits while a worker is free). *)
+Theorem C12_reported_result_frees_worker : forall s j p e s1 vs mx w,
+  handle s (Result j p e) = (s1, vs, mx) -> crashed s1 = false ->
+  find (fun w => wname w =? p) (workers s1) = Some w -> wactive w = None.
+Proof. exact result_frees_worker. Qed.
+Print Assumptions C12_reported_result_frees_worker.
+
+Theorem C12_later_batch_handed_to_free_worker : forall s n nr rt pt picks,
+  crashed s = false -> stopped s = false -> free_workers s <> [] ->
+  exists j p t rest, odisp (snd (step s (NewBatch (S n) nr rt pt, picks))) = (j, p, t) :: rest /\
+                     In p (free_workers s).
+Proof. exact newbatch_handed_out. Qed.
+Print Assumptions C12_later_batch_handed_to_free_worker.
+
 (* Non-vacuity: two workers, three batches in flight (retry after a timeout
    then success; retry cap reached, later results discarded; idle-timer
    timeout), an empty batch answered only at Quit — the hypotheses hold
